@@ -6,6 +6,7 @@ import numpy
 
 from vlib import PROPS, write
 import nonshear_harness as H
+from props import nonshear_static
 
 
 def build_cases(ctx, n):
@@ -108,12 +109,15 @@ def run(ctx):
     ctx.partial += ["that freq/gamma/vdr arrays belong to one interpolant is property C11, here they are inputs"]
     shutil.copy(PROPS / "Prop_C01.v", rd / "Prop_C01.v")
     ctx.prove(rd / "Prop_C01.v", "Prop_C01.v (strain-derivative theorems over R)", "theorem-file", timeout=1800)
+    # static tie: model = code text (regenerated + re-proved on every run); failing inputs are searched below
+    nonshear_static.static_tie(ctx, rd, groups=nonshear_static.C01_GROUPS)
 
-    n = 40 if ctx.tier == "quick" else 300
+    n = 40 if ctx.tier == "quick" else 1500
     cases, meta, consts = build_cases(ctx, n)
     check_constants(ctx, consts)
     files = shards(ctx, rd, cases, 20)
     res = ctx.run_shards(files, label="nonshear tie")
+    nonshear_static.float_shards(ctx, rd, cases, "C01")
     bad = []
     for fi, f in enumerate(files):
         ok, fl, out = res[f]
